@@ -2,11 +2,12 @@ package tr
 
 // Args are the command-line arguments common to all component drivers.
 type Args struct {
-	In   string // behaviours file (one JSON history per line)
-	Out  string // trace file (ndjson)
-	Seed int64
-	Mode string   // component-specific sub-mode
-	Rest []string // remaining positional arguments
+	In      string // behaviours file (one JSON history per line)
+	Out     string // trace file (ndjson)
+	Seed    int64
+	SidBase int      // added to scenario numbers (parallel replay of a split behaviours file)
+	Mode    string   // component-specific sub-mode
+	Rest    []string // remaining positional arguments
 }
 
 // Components maps a component name to its driver. Each driver package is
